@@ -233,8 +233,75 @@ pub fn run_store_and_http() -> (Vec<F>, u64, Vec<String>) {
     (fs, evals, outcomes)
 }
 
+/// Script entry points: nu `.append` (unbuffered variant inside a command, buffered variant
+/// inside a handler) fed with a string, binary, record and external-command byte streams that
+/// arrive in one burst, in two bursts, and larger than the 8 KiB copy buffer.
+pub fn run_scripts() -> (Vec<F>, u64, Vec<String>) {
+    use crate::e5::{meta_str, Serve, World};
+    let mut fs = vec![];
+    let mut outcomes = vec![];
+    let mut evals = 0u64;
+    let inputs: Vec<(&str, String, Vec<u8>)> = vec![
+        ("string", "\"h\u{e9}llo\"".to_string(), "h\u{e9}llo".as_bytes().to_vec()),
+        ("binary", "0x[ff fe 00 80]".to_string(), vec![0xff, 0xfe, 0x00, 0x80]),
+        ("record", "{a: 1, b: [\"x\"]}".to_string(), b"{\"a\":1,\"b\":[\"x\"]}".to_vec()),
+        ("ext-one-burst", "^sh -c \"printf HEADTAIL\"".to_string(), b"HEADTAIL".to_vec()),
+        ("ext-two-bursts", "^sh -c \"printf HEAD; sleep 0.05; printf TAIL\"".to_string(), b"HEADTAIL".to_vec()),
+        ("ext-large-two-bursts", "^sh -c \"head -c 5000 /dev/zero; sleep 0.05; head -c 5003 /dev/zero\"".to_string(), vec![0u8; 10003]),
+        ("ext-20000", "^sh -c \"head -c 20000 /dev/zero\"".to_string(), vec![0u8; 20000]),
+    ];
+    let w = World::start(Serve { handlers: true, commands: true, ..Default::default() });
+    let (_ctl, bad, seen) = install_observer(&w.store);
+    let ctx = w.ctx_a;
+    for (name, expr, want) in &inputs {
+        for via in ["command", "handler"] {
+            evals += 1;
+            let topic = format!("c10.{}.{}", via, name);
+            let trigger = if via == "command" {
+                w.append_c("c10cmd.define", ctx, Some(&format!("{{run: {{|frame| {} | .append {} | ignore}}}}", expr, topic)), None);
+                w.append_c("c10cmd.call", ctx, None, None)
+            } else {
+                let r = w.append_c("c10h.register", ctx, Some(&format!("{{run: {{|frame| if $frame.topic != \"go\" {{ return }}; {} | .append {}}}}}", expr, topic)), None);
+                w.wait(|f| f.topic == "c10h.registered" && meta_str(f, "handler_id") == Some(r.id.to_string()), 20.0);
+                w.append_c("go", ctx, None, None)
+            };
+            let out = w.wait(|f| f.topic == topic && meta_str(f, "frame_id") == Some(trigger.id.to_string()), 20.0);
+            match out {
+                None => {
+                    let err = w.snapshot().into_iter().rev().find(|f| f.topic.ends_with(".error") || f.topic.ends_with(".unregistered")).and_then(|f| f.meta);
+                    fs.push(F { kind: "cas.script_no_output".into(), msg: format!("nu .append ({}, input {}) produced no frame: {:?}", via, name, err) });
+                    outcomes.push(format!("{}:{}:none", via, name));
+                }
+                Some(f) => {
+                    let got = f.hash.as_ref().and_then(|h| w.store.cas_read_sync(h).ok());
+                    let want_hash = sha256_integrity(want);
+                    if got.as_deref() != Some(want.as_slice()) || f.hash.as_ref().map(|h| h.to_string()) != Some(want_hash.clone()) {
+                        fs.push(F {
+                            kind: "cas.script_bytes".into(),
+                            msg: format!("nu .append ({}, input {}): stored {} bytes with hash {:?}; the pipeline produced {} bytes (sha256 {})", via, name, got.map(|g| g.len() as i64).unwrap_or(-1), f.hash.as_ref().map(|h| h.to_string()), want.len(), want_hash),
+                        });
+                    }
+                    outcomes.push(format!("{}:{}:ok", via, name));
+                }
+            }
+        }
+    }
+    for b in bad.lock().unwrap().iter() {
+        fs.push(F { kind: "cas.frame_before_content".into(), msg: b.clone() });
+    }
+    outcomes.push(format!("observer-scripts:{}", *seen.lock().unwrap()));
+    w.store.verif_hooks().install(None);
+    *_ctl.on_frame.lock().unwrap() = None;
+    w.stop();
+    (fs, evals, outcomes)
+}
+
 pub fn run(_tier: &str, report: &mut Report) {
-    let (fs, evals, outcomes) = run_store_and_http();
+    let (mut fs, mut evals, mut outcomes) = run_store_and_http();
+    let (fs2, e2, o2) = run_scripts();
+    fs.extend(fs2);
+    evals += e2;
+    outcomes.extend(o2);
     for f in fs {
         report.add_violation(Violation {
             property: "C10".into(),
@@ -249,7 +316,7 @@ pub fn run(_tier: &str, report: &mut Report) {
     report.cov("traces_validated_against_impl", json!(evals));
     report.cov("evaluations", json!(evals));
     report.cov("distinct_nontrivial", json!(distinct.len()));
-    report.cov("rule", json!("6 byte strings (empty, 1 byte, non-UTF-8, 8192, 8193, 70000) x 8 entry points (cas_insert, cas_insert_sync, cas_writer in 1-byte/8KiB chunks, cas_writer_sync, POST /cas plain+chunked, POST /{topic} plain+chunked), then every hash re-read and re-written after reopening the store; an observer at the append hook reads the content of every hashed frame before the frame can become visible"));
+    report.cov("rule", json!("6 byte strings (empty, 1 byte, non-UTF-8, 8192, 8193, 70000) x 8 entry points (cas_insert, cas_insert_sync, cas_writer in 1-byte/8KiB chunks, cas_writer_sync, POST /cas plain+chunked, POST /{topic} plain+chunked), then every hash re-read and re-written after reopening the store; nu .append in its unbuffered (command) and buffered (handler) variants x 7 input shapes (string, binary, record, external byte stream in one burst / two bursts / > 8 KiB in two bursts / 20000 bytes); an observer at the append hook reads the content of every hashed frame before the frame can become visible"));
     report.cov("samples", json!(outcomes.iter().take(8).collect::<Vec<_>>()));
     report.cov("exhaustive", json!(true));
     let _: Option<Value> = None;
